@@ -167,6 +167,21 @@ fn to_snake_case(mut str: &str) -> String {
     words.join("_")
 }
 
+/// Identifier for a field or enum element: `r#name`, so that keywords can be used. The four
+/// identifiers that cannot be raw (`self`, `Self`, `super`, `crate`) get a trailing underscore;
+/// `rename_attr()` keeps their name on the wire.
+fn field_ident(name: &str) -> Ident {
+    syn::parse_str(&(String::from("r#") + name)).unwrap_or_else(|_| format_ident!("{}_", name))
+}
+
+fn rename_attr(name: &str) -> TokenStream {
+    if syn::parse_str::<Ident>(&(String::from("r#") + name)).is_ok() {
+        quote!()
+    } else {
+        quote!(#[serde(rename = #name)])
+    }
+}
+
 /// Identifier for a generated method: a name whose snake_case form is a Rust keyword
 /// (`Type` -> `type`) becomes a raw identifier (`r#type`); the few keywords that cannot be raw
 /// (`self`, `super`, `crate`) get a trailing underscore.
@@ -183,13 +198,14 @@ impl<'short, 'long: 'short> ToTokenStream<'short, 'long> for VStruct<'long> {
         tokenstream: &mut TokenStream,
         options: &'long GeneratorOptions,
     ) {
-        let tname: Ident = format_ident!("r#{}", name);
+        let tname: Ident = field_ident(name);
 
         let mut enames = vec![];
+        let mut eattrs = vec![];
         let mut etypes = vec![];
         for e in &self.elts {
-            let ename_ident: Ident = syn::parse_str(&(String::from("r#") + e.name)).unwrap();
-            enames.push(ename_ident);
+            enames.push(field_ident(e.name));
+            eattrs.push(rename_attr(e.name));
             etypes.push(
                 TokenStream::from_str(
                     e.vtype
@@ -206,7 +222,7 @@ impl<'short, 'long: 'short> ToTokenStream<'short, 'long> for VStruct<'long> {
         tokenstream.extend(quote!(
             #[derive(Serialize, Deserialize, Debug, PartialEq, Clone)]
             pub struct #tname {
-                #(pub #enames: #etypes,)*
+                #(#eattrs pub #enames: #etypes,)*
             }
         ));
     }
@@ -219,18 +235,19 @@ impl<'short, 'long: 'short> ToTokenStream<'short, 'long> for VEnum<'long> {
         tokenstream: &mut TokenStream,
         _options: &'long GeneratorOptions,
     ) {
-        let tname: Ident = syn::parse_str(&(String::from("r#") + name)).unwrap();
+        let tname: Ident = field_ident(name);
 
         let mut enames = vec![];
+        let mut eattrs = vec![];
 
         for elt in &self.elts {
-            let ename_ident: Ident = syn::parse_str(&(String::from("r#") + elt)).unwrap();
-            enames.push(ename_ident);
+            enames.push(field_ident(elt));
+            eattrs.push(rename_attr(elt));
         }
         tokenstream.extend(quote!(
             #[derive(Serialize, Deserialize, Debug, PartialEq, Clone)]
             pub enum #tname {
-                #(#enames, )*
+                #(#eattrs #enames, )*
             }
         ));
     }
@@ -263,13 +280,13 @@ impl<'short, 'long: 'short> ToTokenStream<'short, 'long> for VError<'long> {
         let mut args_anot = vec![];
 
         for e in &self.parm.elts {
+            let rename = rename_attr(e.name);
             args_anot.push(if let VTypeExt::Option(_) = e.vtype {
-                quote!(#[serde(skip_serializing_if = "Option::is_none")])
+                quote!(#[serde(skip_serializing_if = "Option::is_none")] #rename)
             } else {
-                quote!()
+                rename
             });
-            let ename_ident: Ident = syn::parse_str(&(String::from("r#") + e.name)).unwrap();
-            args_enames.push(ename_ident);
+            args_enames.push(field_ident(e.name));
             args_etypes.push(
                 TokenStream::from_str(
                     e.vtype
@@ -564,13 +581,13 @@ fn generate_anon_struct(
     anot: &mut Vec<TokenStream>,
 ) {
     for e in &vstruct.elts {
+        let rename = rename_attr(e.name);
         anot.push(if let VTypeExt::Option(_) = e.vtype {
-            quote!(#[serde(skip_serializing_if = "Option::is_none")])
+            quote!(#[serde(skip_serializing_if = "Option::is_none")] #rename)
         } else {
-            quote!()
+            rename
         });
-        let ename_ident: Ident = syn::parse_str(&(String::from("r#") + e.name)).unwrap();
-        field_names.push(ename_ident);
+        field_names.push(field_ident(e.name));
         field_types.push(
             TokenStream::from_str(
                 e.vtype
@@ -758,9 +775,7 @@ fn generate_error_code(
             let args_name = Ident::new(&format!("{}_Args", t.name), Span::call_site());
             if !t.parm.elts.is_empty() {
                 for e in &t.parm.elts {
-                    let ename_ident: Ident =
-                        syn::parse_str(&(String::from("r#") + e.name)).unwrap();
-                    inparms_name.push(ename_ident);
+                    inparms_name.push(field_ident(e.name));
                     inparms_type.push(
                         TokenStream::from_str(
                             e.vtype
